@@ -115,6 +115,32 @@ type world struct {
 	peerSeen         atomic.Int64
 }
 
+// peerWrite sends b from the peer.
+func (w *world) peerWrite(b []byte) { w.p.Peer.Write(b) }
+
+// syncTransport makes both directions synchronous (a write returns when the
+// other end has read the bytes), the peer answering requests from its read
+// loop as ever: requesters blocked in their write, the peer blocked in its write
+// of a large response and not reading meanwhile, and the serve loop in between,
+// which must not wait for any of them.  The serve loop itself writes nothing in
+// these histories until the sentinel; asyncForSentinel is called before that.
+func (w *world) syncTransport() {
+	w.p.Lib.SetSyncWrites(true)
+	w.p.Peer.SetSyncWrites(true)
+}
+
+// asyncForSentinel: the sentinel is a request of the peer's which the serve
+// loop answers.  If the peer's read loop were still in the synchronous write of
+// a late response at that moment (waiting for the serve loop to read) while the
+// serve loop waits, in the write of its answer, for the peer to read, the two
+// ends would block one another for good, as two hosts with full buffers would:
+// a deadlock of the test bed, not of the library (seen in thorough runs under
+// load as histories that never ended).  From here on the peer's writes are
+// buffered, and the ones in progress are released.
+func (w *world) asyncForSentinel() {
+	w.p.Peer.SetSyncWrites(false)
+}
+
 const nsV = "urn:verif:c06"
 
 func attrOf(se xml.StartElement, local string) string {
@@ -349,7 +375,7 @@ func (w *world) onPeer(n *xmltree.Node) {
 			}
 			if rs.What == "receipt" {
 				w.log.add(ev{Ev: "deliver", RQ: rq, RN: rn, Kind: "message", Typ: "chat", ID: id, Note: "receipt/" + rs.When})
-				w.p.Peer.Write([]byte(w.receiptMessage(rn, fmt.Sprintf("rc%d", rn), fmt.Sprintf("<received xmlns='urn:xmpp:receipts' id='%s'/>", esc(id)))))
+				w.peerWrite([]byte(w.receiptMessage(rn, fmt.Sprintf("rc%d", rn), fmt.Sprintf("<received xmlns='urn:xmpp:receipts' id='%s'/>", esc(id)))))
 				pl.sentOnce.Do(func() { close(pl.firstSent) })
 				return
 			}
@@ -361,12 +387,12 @@ func (w *world) onPeer(n *xmltree.Node) {
 			switch rs.What {
 			case "broken-xml":
 				// the reply breaks off inside the response stanza: not well-formed
-				w.p.Peer.Write([]byte(fmt.Sprintf("<%s type='%s' id='%s' rn='%d' rq='%s'><r xmlns='%s' rn='%d' rq='%s'><c/><d></e></r></%s>", kind, typ, esc(rid), rn, esc(rq), nsV, rn, esc(rq), kind)))
+				w.peerWrite([]byte(fmt.Sprintf("<%s type='%s' id='%s' rn='%d' rq='%s'><r xmlns='%s' rn='%d' rq='%s'><c/><d></e></r></%s>", kind, typ, esc(rid), rn, esc(rq), nsV, rn, esc(rq), kind)))
 				pl.sentOnce.Do(func() { close(pl.firstSent) })
 				return
 			case "broken-eof":
 				// the connection ends inside the response stanza
-				w.p.Peer.Write([]byte(fmt.Sprintf("<%s type='%s' id='%s' rn='%d' rq='%s'><r xmlns='%s' rn='%d' rq='%s'><c/><d>", kind, typ, esc(rid), rn, esc(rq), nsV, rn, esc(rq))))
+				w.peerWrite([]byte(fmt.Sprintf("<%s type='%s' id='%s' rn='%d' rq='%s'><r xmlns='%s' rn='%d' rq='%s'><c/><d>", kind, typ, esc(rid), rn, esc(rq), nsV, rn, esc(rq))))
 				w.p.Peer.CloseWrite()
 				pl.sentOnce.Do(func() { close(pl.firstSent) })
 				return
@@ -394,7 +420,7 @@ func (w *world) onPeer(n *xmltree.Node) {
 			if w.pad > 0 {
 				pad = "<pad>" + strings.Repeat("p", w.pad) + "</pad>"
 			}
-			w.p.Peer.Write([]byte(fmt.Sprintf("<%s%s type='%s' id='%s' rn='%d' rq='%s'><r xmlns='%s' rn='%d' rq='%s'><c/><c/>%s</r>%s</%s>", kind, qual, typ, esc(rid), rn, esc(rq), nsV, rn, esc(rq), pad, errEl, kind)))
+			w.peerWrite([]byte(fmt.Sprintf("<%s%s type='%s' id='%s' rn='%d' rq='%s'><r xmlns='%s' rn='%d' rq='%s'><c/><c/>%s</r>%s</%s>", kind, qual, typ, esc(rid), rn, esc(rq), nsV, rn, esc(rq), pad, errEl, kind)))
 			pl.sentOnce.Do(func() { close(pl.firstSent) })
 		}
 		switch rs.When {
@@ -420,7 +446,7 @@ func (w *world) progress() int64 {
 
 func (w *world) sendSentinel() {
 	w.log.add(ev{Ev: "sentinel-sent"})
-	w.p.Send("<iq type='get' id='sentinel' from='peer@example.org/p'><ping xmlns='urn:xmpp:ping'/></iq>")
+	w.peerWrite([]byte("<iq type='get' id='sentinel' from='peer@example.org/p'><ping xmlns='urn:xmpp:ping'/></iq>"))
 }
 
 var _ = stanza.IQ{}
